@@ -1,3 +1,322 @@
+import QmiModel.Model.TextAttr
+import QmiModel.Model.TextLayout
+import QmiModel.Model.Store
+import QmiModel.Model.Recorder
+import QmiModel.Model.Hdf5Map
 import Drv.Common
-/-! stub driver for C17: replaced when the model is built -/
-def main : IO Unit := Drv.main' (fun (s : Unit) _ => (s, "bad-op")) ()
+/-!
+Line-protocol driver for the C17 models.  Strings travel as comma-separated code points, `-` for the
+empty string, `~` for Python `None`.  One output line per input line; `bad-op` on anything malformed.
+
+  a repr s <cps> <printable flags 0/1 per char, or ->   -> cps of repr(str)
+  a repr i <int> | a repr f <lit> | a repr npf <lit> | a repr npi <int> | a repr b <0|1>
+  a parse <cps>                                           -> str:<cps> | int:<i> | bool:<0|1> | float:<cps> | exc:<T>
+  l write <dims,> <ncol> <scale flags per axis 0/1>       -> tags;row|row|…   (cells: index n, data 1000000+k, scale 2000000+10000*ax+i)
+  l read <dims,> <ncol> <tags,|-> <row|row|…>             -> ok <data,>;<scale or ~ per axis, '/' separated> | err:<kind>
+  f init | f write <name> <h|t|o> <ow> <fail> <content> | f read <name> | f ls
+  s init | s addfile <date> | s addchild <date> <name> <isdir> | s mk <label> <hasTs> <date|~> <time|~> <ddate> <dtime>
+        | s latest <label> <date|~> | s ls
+  h <naxes> <ncol> <ts> <labels…>                         (see `hLine`)
+  r init | r rec <d> <v,v,…|-> | r attr <d> <k> <v> | r shutdown | r swap | r flush | r file
+-/
+open QmiModel.C17
+
+namespace DrvC17
+
+def parseCps (s : String) : Option Str :=
+  if s == "-" then some [] else
+  (s.splitOn ",").foldr (fun t acc => match t.toNat?, acc with
+    | some n, some l => some (n :: l)
+    | _, _ => none) (some [])
+
+def showCps (s : Str) : String :=
+  if s.isEmpty then "-" else ",".intercalate (s.map toString)
+
+def parseOptCps (s : String) : Option (Option Str) :=
+  if s == "~" then some none else (parseCps s).map some
+
+def parseBool (s : String) : Option Bool :=
+  if s == "1" then some true else if s == "0" then some false else none
+
+def excStr (e : PyExc) : String := "exc:" ++ e.name
+
+/-! ### attributes -/
+
+def mkPr (s : Str) (flags : String) : Option (Nat → Bool) :=
+  let fl := if flags == "-" then [] else flags.toList
+  if fl.length ≠ s.length || !fl.all (fun c => c == '0' || c == '1') then none else
+  let tbl := s.zip fl
+  some (fun c => match tbl.find? (fun e => e.1 = c) with
+    | some e => e.2 == '1'
+    | none => false)
+
+def showVal : Except PyExc AttrVal → String
+  | .ok (.str s) => "str:" ++ showCps s
+  | .ok (.int i) => "int:" ++ toString i
+  | .ok (.bool b) => "bool:" ++ (if b then "1" else "0")
+  | .ok (.float l) => "float:" ++ showCps l
+  | .ok (.npFloat l) => "npfloat:" ++ showCps l
+  | .ok (.npInt i) => "npint:" ++ toString i
+  | .error e => excStr e
+
+def attrLine : List String → String
+  | ["repr", "s", cps, flags] =>
+    match parseCps cps with
+    | some s => match mkPr s flags with
+      | some pr => showCps (pyRepr pr (.str s))
+      | none => "bad-op"
+    | none => "bad-op"
+  | ["repr", "i", n] => match n.toInt? with
+    | some i => showCps (pyRepr (fun _ => true) (.int i))
+    | none => "bad-op"
+  | ["repr", "npi", n] => match n.toInt? with
+    | some i => showCps (pyRepr (fun _ => true) (.npInt i))
+    | none => "bad-op"
+  | ["repr", "f", l] => match parseCps l with
+    | some s => showCps (pyRepr (fun _ => true) (.float s))
+    | none => "bad-op"
+  | ["repr", "npf", l] => match parseCps l with
+    | some s => showCps (pyRepr (fun _ => true) (.npFloat s))
+    | none => "bad-op"
+  | ["repr", "b", b] => match parseBool b with
+    | some v => showCps (pyRepr (fun _ => true) (.bool v))
+    | none => "bad-op"
+  | ["parse", cps] => match parseCps cps with
+    | some s => showVal (parseAttr s)
+    | none => "bad-op"
+  | _ => "bad-op"
+
+/-! ### layout -/
+
+def parseNats (s : String) : Option (List Nat) :=
+  if s == "-" then some [] else
+  (s.splitOn ",").foldr (fun t acc => match t.toNat?, acc with
+    | some n, some l => some (n :: l)
+    | _, _ => none) (some [])
+
+def showTag : ColTag → String
+  | .index ax => "I" ++ toString ax
+  | .scale ax => "S" ++ toString ax
+
+def parseTag (s : String) : Option ColTag :=
+  match s.toList with
+  | 'I' :: r => (String.ofList r).toNat?.map ColTag.index
+  | 'S' :: r => (String.ofList r).toNat?.map ColTag.scale
+  | _ => none
+
+def showRows (rows : List (List Nat)) : String :=
+  "|".intercalate (rows.map (fun r => " ".intercalate (r.map toString)))
+
+def layoutLine : List String → String
+  | ["write", dims, ncol, flags] =>
+    match parseNats dims, ncol.toNat? with
+    | some ds, some nc =>
+      let fl := flags.toList
+      if fl.length ≠ ds.length || ds.isEmpty then "bad-op" else
+      let scales := (List.range ds.length).map (fun ax =>
+        if fl.getD ax '0' == '1' then some ((List.range (ds.getD ax 0)).map (fun i => 2000000 + 10000 * ax + i)) else none)
+      let d : Layout Nat := { dims := ds, ncol := nc, data := (List.range (prod ds * nc)).map (· + 1000000), scales := scales }
+      let m := writeLayout (fun n => n) d
+      (if m.tags.isEmpty then "-" else ",".intercalate (m.tags.map showTag)) ++ ";" ++ showRows m.rows
+    | _, _ => "bad-op"
+  | ["read", dims, ncol, tags, rows] =>
+    match parseNats dims, ncol.toNat? with
+    | some ds, some nc =>
+      let tg := if tags == "-" then some [] else
+        (tags.splitOn ",").foldr (fun t acc => match parseTag t, acc with
+          | some x, some l => some (x :: l)
+          | _, _ => none) (some [])
+      let rs := (rows.splitOn "|").foldr (fun r acc =>
+        match ((r.splitOn "_").foldr (fun t a => match t.toNat?, a with
+            | some n, some l => some (n :: l)
+            | _, _ => none) (some [])), acc with
+        | some x, some l => some (x :: l)
+        | _, _ => none) (some [])
+      match tg, rs with
+      | some tg, some rs =>
+        match readLayout (fun n => n) ds nc { tags := tg, rows := rs } with
+        | .ok d => "ok " ++ (if d.data.isEmpty then "-" else ",".intercalate (d.data.map toString)) ++ ";" ++
+            "/".intercalate (d.scales.map (fun s => match s with
+              | some l => if l.isEmpty then "-" else ",".intercalate (l.map toString)
+              | none => "~"))
+        | .error .rows => "err:rows"
+        | .error .cols => "err:cols"
+        | .error (.index ax) => "err:index" ++ toString ax
+        | .error (.scale ax) => "err:scale" ++ toString ax
+      | _, _ => "bad-op"
+    | _, _ => "bad-op"
+  | _ => "bad-op"
+
+/-! ### store -/
+
+def showFolder (fs : Folder) : String :=
+  let l := (fs.map (fun e => showCps e.1 ++ "=" ++ toString e.2)).toArray.qsort (· < ·) |>.toList
+  if l.isEmpty then "-" else ";".intercalate l
+
+def showDStore (st : DStore) : String :=
+  let l := (st.map (fun e => showCps e.1 ++ ":" ++ (match e.2 with
+    | none => "file"
+    | some ch => "[" ++ ";".intercalate ((ch.map (fun c => showCps c.1 ++ (if c.2 then "/" else ""))).toArray.qsort (· < ·) |>.toList) ++ "]"))).toArray.qsort (· < ·) |>.toList
+  if l.isEmpty then "-" else " ".intercalate l
+
+/-! ### recorder -/
+
+structure RecDrv where
+  s : RecSt
+  ds : List Nat      -- dataset ids seen
+  ks : List Nat      -- attribute ids seen
+
+def insSorted (x : Nat) : List Nat → List Nat
+  | [] => [x]
+  | y :: ys => if x = y then y :: ys else if x < y then x :: y :: ys else y :: insSorted x ys
+
+def showBlocks (bs : Blocks) : String := "|".intercalate (bs.map (fun b => ".".intercalate (b.map toString)))
+
+def showBlockMap (ds : List Nat) (m : Nat → Blocks) : String :=
+  ";".intercalate ((ds.filter (fun d => m d ≠ [])).map (fun d => toString d ++ ":" ++ showBlocks (m d)))
+
+def showAttrs (ks : List Nat) (a : Attrs) : String :=
+  ",".intercalate (ks.filterMap (fun k => (a k).map (fun v => toString k ++ "=" ++ toString v)))
+
+def showAttrMap (ds ks : List Nat) (m : Nat → Option Attrs) : String :=
+  ";".intercalate (ds.filterMap (fun d => (m d).map (fun a => toString d ++ ":" ++ showAttrs ks a)))
+
+def showRec (r : RecDrv) : String :=
+  "S{" ++ showBlockMap r.ds r.s.shared ++ "} K" ++ toString r.s.keys.length ++
+  " A{" ++ showAttrMap r.ds r.ks r.s.sattrs ++ "} L{" ++ showBlockMap r.ds r.s.loc ++
+  "} N{" ++ showAttrMap r.ds r.ks r.s.newA ++ "} P{" ++ showAttrMap r.ds r.ks r.s.pendA ++
+  "} sd" ++ (if r.s.shutdown then "1" else "0") ++ " q" ++ (if r.s.quit then "1" else "0") ++
+  " " ++ (match r.s.pc with | .idle => "idle" | .flushing => "flushing" | .done => "done")
+
+def showFile (r : RecDrv) : String :=
+  let l := (r.ds.filter (fun d => r.s.file d ≠ [])).map (fun d =>
+    toString d ++ ":" ++ ".".intercalate ((r.s.file d).map toString) ++ "[" ++ showAttrs r.ks (r.s.fattrs d) ++ "]")
+  if l.isEmpty then "-" else ";".intercalate l
+
+def recAct (r : RecDrv) (a : RecAct) : RecDrv × String :=
+  match recStep r.s a with
+  | some s' => let r' := { r with s := s' }; (r', showRec r')
+  | none => (r, "not-enabled")
+
+structure St where
+  folder : Folder := []
+  dstore : DStore := []
+  rc : RecDrv := { s := RecSt.init, ds := [], ks := [] }
+  serial : Nat := 0
+
+def storeMk (st : St) (label hasTs date time dd dt : String) : St × String :=
+  match parseCps label, parseBool hasTs, parseOptCps date, parseOptCps time, parseCps dd, parseCps dt with
+  | some l, some ts, some d, some t, some ddv, some dtv =>
+    let (s', r) := makeFolder st.dstore { label := l, hasTs := ts, date := d, time := t, derived := (ddv, dtv) }
+    ({ st with dstore := s' }, match r with
+      | .ok (a, b) => "ok:" ++ showCps a ++ "/" ++ showCps b
+      | .error e => excStr e)
+  | _, _, _, _, _, _ => (st, "bad-op")
+
+def hLine (args : List String) : String :=
+  -- h <naxes> <ncol> <ts> <axisLabels ;-separated> <axisUnits> <colLabels> <colUnits> <scales 0/1 flags> <custom k=v;…, v = s<cps> | n<nat>>
+  match args with
+  | [na, nc, ts, al, au, cl, cu, sc, cust] =>
+    let strs (s : String) : Option (List Str) :=
+      if s == "~" then some [] else
+      (s.splitOn ";").foldr (fun t acc => match parseCps t, acc with
+        | some x, some l => some (x :: l)
+        | _, _ => none) (some [])
+    let cvals : Option (List (Str × HVal)) :=
+      if cust == "~" then some [] else
+      (cust.splitOn ";").foldr (fun t acc =>
+        match t.splitOn "=", acc with
+        | [k, v], some l =>
+          (match parseCps k, v.toList with
+           | some kk, 's' :: r => (parseCps (String.ofList r)).map (fun x => (kk, HVal.s x) :: l)
+           | some kk, 'n' :: r => ((String.ofList r).toNat?).map (fun x => (kk, HVal.n x) :: l)
+           | _, _ => none)
+        | _, _ => none) (some [])
+    match na.toNat?, nc.toNat?, ts.toNat?, strs al, strs au, strs cl, strs cu, cvals with
+    | some naxes, some ncol, some tsv, some alv, some auv, some clv, some cuv, some cv =>
+      let scv := sc.toList.map (fun c => if c == '1' then some 1 else none)
+      let d : DSMeta := { name := [100], ts := .n tsv, axisLabel := alv, axisUnit := auv, colLabel := clv, colUnit := cuv,
+                          scales := (List.range naxes).map (fun i => (scv.getD i none).map (fun _ => i)), attrs := cv }
+      match writeH d naxes ncol [116] with
+      | .error e => "W:" ++ excStr e
+      | .ok h5 =>
+        let keys := (h5.attrs.map (fun e => showCps e.1 ++ "=" ++ (match e.2 with | .s v => "s" ++ showCps v | .n v => "n" ++ toString v))).toArray.qsort (· < ·) |>.toList
+        let rd := match readH h5 naxes ncol with
+          | .error e => "R:" ++ excStr e
+          | .ok d' => if d' = { d with attrs := d'.attrs } &&
+                         (d.attrs.all (fun e => HAttrs.get d'.attrs e.1 = some e.2)) && d'.attrs.length = d.attrs.length
+                      then "same" else "differs"
+        " ".intercalate keys ++ " # " ++ rd
+    | _, _, _, _, _, _, _, _ => "bad-op"
+  | _ => "bad-op"
+
+def stepLine (st : St) (line : String) : St × String :=
+  match line.splitOn " " with
+  | "a" :: rest => (st, attrLine rest)
+  | "l" :: rest => (st, layoutLine rest)
+  | "h" :: rest => (st, hLine rest)
+  | ["f", "init"] => ({ st with folder := [] }, "ok")
+  | ["f", "write", name, fmt, ow, fail, content] =>
+    match parseCps name, parseBool ow, parseBool fail, content.toNat? with
+    | some n, some o, some fl, some c =>
+      let f := if fmt == "h" then some Fmt.hdf5 else if fmt == "t" then some Fmt.text else if fmt == "o" then some Fmt.other else none
+      match f with
+      | some f =>
+        let (fs', r) := writeDataset st.folder { name := n, fmt := f, overwrite := o, writerFails := fl, content := c }
+        ({ st with folder := fs' }, match r with | .ok _ => "ok" | .error e => excStr e)
+      | none => (st, "bad-op")
+    | _, _, _, _ => (st, "bad-op")
+  | ["f", "read", name] =>
+    match parseCps name with
+    | some n => (st, match readDataset st.folder n with | .ok c => "ok:" ++ toString c | .error e => excStr e)
+    | none => (st, "bad-op")
+  | ["f", "ls"] => (st, showFolder st.folder)
+  | ["s", "init"] => ({ st with dstore := [] }, "ok")
+  | ["s", "addfile", d] =>
+    match parseCps d with
+    | some dv => ({ st with dstore := st.dstore.put dv none }, "ok")
+    | none => (st, "bad-op")
+  | ["s", "addchild", d, n, isdir] =>
+    match parseCps d, parseCps n, parseBool isdir with
+    | some dv, some nv, some b =>
+      let ch := match st.dstore.get dv with
+        | some (some ch) => ch
+        | _ => []
+      ({ st with dstore := st.dstore.put dv (some (ch ++ [(nv, b)])) }, "ok")
+    | _, _, _ => (st, "bad-op")
+  | ["s", "mk", label, hasTs, date, time, dd, dt] => storeMk st label hasTs date time dd dt
+  | ["s", "latest", label, date] =>
+    match parseCps label, parseOptCps date with
+    | some l, some d =>
+      (st, match findLatest st.dstore l d with
+        | .ok (some (a, b, c)) => "ok:" ++ showCps a ++ "/" ++ showCps b ++ "/" ++ showCps c
+        | .ok none => "none"
+        | .error e => excStr e)
+    | _, _ => (st, "bad-op")
+  | ["s", "ls"] => (st, showDStore st.dstore)
+  | ["r", "init"] => ({ st with rc := { s := RecSt.init, ds := [], ks := [] } }, "ok")
+  | ["r", "rec", d, vals] =>
+    match d.toNat?, parseNats vals with
+    | some dv, some vs =>
+      let r := { st.rc with ds := insSorted dv st.rc.ds }
+      let (r', o) := recAct r (.record dv vs)
+      ({ st with rc := r' }, o)
+    | _, _ => (st, "bad-op")
+  | ["r", "attr", d, k, v] =>
+    match d.toNat?, k.toNat?, v.toNat? with
+    | some dv, some kv, some vv =>
+      let r := { st.rc with ds := insSorted dv st.rc.ds, ks := insSorted kv st.rc.ks }
+      let (r', o) := recAct r (.setAttr dv kv vv)
+      ({ st with rc := r' }, o)
+    | _, _, _ => (st, "bad-op")
+  | ["r", "shutdown"] => let (r', o) := recAct st.rc .shutdown; ({ st with rc := r' }, o)
+  | ["r", "shutdown!"] =>   -- flag set while the writer is inside its critical section: intermediate state not compared
+    let (r', o) := recAct st.rc .shutdown; ({ st with rc := r' }, if o == "not-enabled" then o else "ok")
+  | ["r", "swap"] => let (r', o) := recAct st.rc .swap; ({ st with rc := r' }, o)
+  | ["r", "flush"] => let (r', o) := recAct st.rc .flush; ({ st with rc := r' }, o)
+  | ["r", "file"] => (st, showFile st.rc)
+  | _ => (st, "bad-op")
+
+end DrvC17
+
+def main : IO Unit := Drv.main' DrvC17.stepLine {}
